@@ -3,13 +3,22 @@ C14 — Elitist and multi-objective CMA-ES never lose the best and keep factors 
 Property theorems only; the model is `DeapModel/Core/CmaElitist.lean`, helper lemmas are in
 `DeapModel/Lemmas/C14*.lean`.
 
-Status: **partial**.  `numpy.linalg.cholesky`, `numpy.linalg.inv`, the non-dominated sort, the
-hypervolume indicator and IEEE rounding are parameters / trusted (validated numerically by the
-harness); everything stated here is proved for all inputs over ℝ (matrix part) or over an arbitrary
+Status: **partial**.  `numpy.linalg.cholesky`, `numpy.linalg.inv` and IEEE rounding are parameters /
+trusted (validated numerically by the harness); the non-dominated sort and the hypervolume
+indicator are parameters of the Float model of `update` but are the proved C04 / C15 models in the
+exact composition of section 7; everything stated here is proved for all inputs over ℝ (matrix part) or over an arbitrary
 totally pre-ordered fitness type (elitism, bookkeeping).  Whole-history invariants:
 `elitist_never_worse`, `active_elitist_never_worse`, `psucc_sigma_history`,
 `active_psucc_sigma_history`, `mo_psucc_sigma_history`, `onepl_factor_history`,
 `active_inverse_history`, `mo_inverse_history`.
+
+Composition (sections 7, 8): `mo_select_library` instantiates `_select` with the C04 model of
+`sortLogNondominated` and the C15 model of the hypervolume indicator (`Core/CmaSelectLib.lean`) and
+proves ranks-then-least-contributor from `C04.sortLog_eq_peel` and `C15.indicator_least`, exact
+regime, without any contract hypothesis on the two components; `elitist_never_worse_lex` /
+`active_elitist_never_worse_lex` / `active_elitist_never_worse_constrained` are the whole-history
+elitism theorems with C01's models of `Fitness` / `ConstrainedFitness` comparison (lexicographic order
+of weighted values, any number of objectives) in place of an abstract total preorder.
 -/
 import DeapModel.Core.CmaElitist
 import DeapModel.RealInst
@@ -20,6 +29,8 @@ import DeapModel.Lemmas.C14Bridge
 import DeapModel.Lemmas.C14Matrix
 import DeapModel.Lemmas.C14Update
 import DeapModel.Lemmas.C14Shapes
+import DeapModel.Lemmas.C14Compose
+import DeapModel.Props.C01
 import Mathlib.LinearAlgebra.Matrix.DotProduct
 
 set_option linter.unusedSectionVars false
@@ -1700,5 +1711,308 @@ example : NormsOk intOrd (fun _ _ => none)
   simp [matVec, dot_eq_list, vadd_eq, vscale_eq, normSq_cons, normSq_nil, hk]
 
 end Examples
+
+/-! ## 7. `_select` composed with the library's own sort (C04) and hypervolume indicator (C15) -/
+section Compose
+open CmaElitist CmaElitist.MO CmaElitist.MOLib NDSort Hypervolume C14Select C14Compose
+
+/-- With at most `mu` candidates the composed `_select` keeps everything (cma.py:434-435). -/
+theorem mo_select_library_small (mu m : Nat) (cands : List Cand) (h : cands.length ≤ mu) :
+    MOLib.select mu m cands = some (cands, []) := by
+  simp [MOLib.select, h]
+
+/-- **`_select` with the library's own components — no contract hypothesis left.**
+`MOLib.select` is `_select` (cma.py:433-472) with the C04 model of
+`sortLogNondominated(candidates, len(candidates))` as the ranking and the C15 model of
+`tools.hypervolume(front, ref=ref)` (`leastContributor` over exact scalars) as the indicator.  For
+more than `mu` candidates whose fitnesses have `m ≥ 2` objectives:
+* the sort finishes and its fronts `F` are, front by front, the Pareto ranking by peeling: front `i`
+  holds exactly the candidates of dominance depth `i` (`C04.sortLog_eq_peel`,
+  `C04.sortLog_front_iff_depth`), so the number `j` of leading fronts that fit entirely is the
+  number of leading depth classes that fit;
+* if these fill `mu` exactly, they are the chosen ones, every later front is discarded;
+* otherwise front `j` is split: `|mid| - k` times (`k = mu - |whole|` free places) ONE individual is
+  removed whose removal loses the LEAST hypervolume — hypervolume of the negated weighted values
+  w.r.t. the reference point "worst + 1 over all candidates", measured by `hvCells`
+  (= Lebesgue measure of the dominated region, `C15.hvCells_eq_volume`); the first such individual
+  (`C15.indicator_least`) — this is `LeastDrops`; the chosen ones are the whole fronts followed by
+  the `k` survivors, the discarded ones the later fronts followed by the removed individuals. -/
+theorem mo_select_library (mu m : Nat) (cands : List Cand) (hm : 2 ≤ m)
+    (hlen : ∀ c ∈ cands, c.w.length = m) (hc : mu < cands.length) :
+    ∃ F, sortLog cands cands.length = some F ∧ List.Forall₂ List.Perm F (peel domI cands) ∧
+      (∀ i f, F[i]? = some f → ∀ c, c ∈ f ↔ c ∈ cands ∧ depth domI cands c = i) ∧
+      wholeCount mu F 0 = wholeCount mu (peel domI cands) 0 ∧
+      (let j := wholeCount mu F 0
+       let whole := (F.take j).flatten
+       whole.length ≤ mu ∧
+       (whole.length = mu → MOLib.select mu m cands = some (whole, (F.drop j).flatten)) ∧
+       (whole.length < mu → ∃ mid rest mid' removed,
+          F.drop j = mid :: rest ∧ mu - whole.length < mid.length ∧
+          LeastDrops (refPoint cands) (mid.length - (mu - whole.length)) mid mid' removed ∧
+          mid'.length = mu - whole.length ∧
+          MOLib.select mu m cands = some (whole ++ mid', rest.flatten ++ removed))) := by
+  have hne : cands ≠ [] := by intro e; subst e; simp at hc
+  obtain ⟨F, hF, hP, hperm, hdepth⟩ := sort_all m cands hm hne hlen
+  have hsel : MOLib.select mu m cands = selectFronts mu F (indicator m (refPoint cands)) cands := by
+    unfold MOLib.select; rw [if_neg (by omega), hF]
+  have hf : mu < F.flatten.length := by rw [hperm.length_eq]; exact hc
+  have hind : ∀ l, l ≠ [] → indicator m (refPoint cands) l < l.length :=
+    fun l hl => indicator_lt m _ l hl
+  obtain ⟨r1, r2, r3⟩ := mo_rank_then_hv mu F (indicator m (refPoint cands)) cands hc hf hind
+  refine ⟨F, hF, hP, hdepth, wholeCount_congr mu F _ 0 hP, ?_⟩
+  intro j whole
+  refine ⟨r1, fun h => by rw [hsel]; exact r2 h, fun h => ?_⟩
+  obtain ⟨mid, rest, mid', removed, e1, e2, e3, e4, e5, e6⟩ := r3 h
+  have hmid : ∀ c ∈ mid, c.w.length = m := by
+    intro c hcm
+    have h1 : mid ∈ F.drop j := by rw [e1]; simp
+    have h2 : mid ∈ F := List.mem_of_mem_drop h1
+    exact hlen c (hperm.mem_iff.1 (List.mem_flatten.2 ⟨mid, h2, hcm⟩))
+  obtain ⟨mid'', removed'', d1, d2⟩ := dropLeast_least m (refPoint cands)
+    (mid.length - (mu - whole.length)) mid rest.flatten (by omega) hmid
+  rw [e3] at d1
+  simp only [Option.some.injEq, Prod.mk.injEq, List.append_cancel_left_eq] at d1
+  obtain ⟨rfl, rfl⟩ := d1
+  exact ⟨mid, rest, mid', removed, e1, e2, d2, e4, by rw [hsel]; exact e6⟩
+
+/-- The composed `_select` keeps exactly `mu` parents and loses nobody. -/
+theorem mo_select_library_count (mu m : Nat) (cands : List Cand) (hm : 2 ≤ m)
+    (hlen : ∀ c ∈ cands, c.w.length = m) (hc : mu < cands.length) :
+    ∃ chosen notChosen, MOLib.select mu m cands = some (chosen, notChosen) ∧
+      chosen.length = mu ∧ (chosen ++ notChosen).Perm cands := by
+  have hne : cands ≠ [] := by intro e; subst e; simp at hc
+  obtain ⟨F, hF, hP, hperm, hdepth⟩ := sort_all m cands hm hne hlen
+  have hsel : MOLib.select mu m cands = selectFronts mu F (indicator m (refPoint cands)) cands := by
+    unfold MOLib.select; rw [if_neg (by omega), hF]
+  obtain ⟨ch, nc, h1, h2, h3⟩ := mo_select_count mu F (indicator m (refPoint cands)) cands hc
+    (by rw [hperm.length_eq]; exact hc) (fun l hl => indicator_lt m _ l hl)
+  exact ⟨ch, nc, by rw [hsel]; exact h1, h2, h3.trans hperm⟩
+
+/-- **Ranks first.**  With `j` = the number of leading Pareto-depth classes that fit into `mu`
+entirely: every chosen candidate has depth `≤ j`, every discarded one depth `≥ j`; hence every
+candidate of depth `< j` is kept and every candidate of depth `> j` is discarded — only the class
+of depth `j` is split (by the hypervolume indicator, `mo_select_library`). -/
+theorem mo_select_library_ranks (mu m : Nat) (cands : List Cand) (hm : 2 ≤ m)
+    (hlen : ∀ c ∈ cands, c.w.length = m) (hc : mu < cands.length) :
+    ∃ chosen notChosen, MOLib.select mu m cands = some (chosen, notChosen) ∧
+      (let j := wholeCount mu (peel domI cands) 0
+       (∀ c ∈ chosen, depth domI cands c ≤ j) ∧ (∀ c ∈ notChosen, j ≤ depth domI cands c) ∧
+       (∀ c ∈ cands, depth domI cands c < j → c ∈ chosen) ∧
+       (∀ c ∈ cands, j < depth domI cands c → c ∈ notChosen)) := by
+  obtain ⟨F, hF, hP, hdepth, hj, hsel⟩ := mo_select_library mu m cands hm hlen hc
+  obtain ⟨ch, nc, hs, _, hperm⟩ := mo_select_library_count mu m cands hm hlen hc
+  refine ⟨ch, nc, hs, ?_⟩
+  intro j
+  have key : (∀ c ∈ ch, depth domI cands c ≤ j) ∧ (∀ c ∈ nc, j ≤ depth domI cands c) := by
+    simp only at hsel
+    obtain ⟨s1, s2, s3⟩ := hsel
+    rw [hj] at s1 s2 s3
+    rcases Nat.lt_or_ge ((F.take j).flatten.length) mu with hlt | hge
+    · obtain ⟨mid, rest, mid', removed, e1, e2, e3, e4, e5⟩ := s3 hlt
+      rw [hs] at e5
+      simp only [Option.some.injEq, Prod.mk.injEq] at e5
+      obtain ⟨rfl, rfl⟩ := e5
+      obtain ⟨g1, g2⟩ := drop_cons_getElem? F j mid rest e1
+      have hmidd : ∀ c ∈ mid, depth domI cands c = j := fun c hcm => ((hdepth j mid g1 c).1 hcm).2
+      obtain ⟨pm, _, _⟩ := e3.perm
+      constructor
+      · intro c hcm
+        rcases List.mem_append.1 hcm with h1 | h1
+        · obtain ⟨i, f, hi, hf, hcf⟩ := mem_take_flatten F j c h1
+          have := ((hdepth i f hf c).1 hcf).2
+          omega
+        · exact Nat.le_of_eq (hmidd c (pm.subset (List.mem_append_left _ h1)))
+      · intro c hcm
+        rcases List.mem_append.1 hcm with h1 | h1
+        · rw [← g2] at h1
+          obtain ⟨i, f, hi, hf, hcf⟩ := mem_drop_flatten F (j + 1) c h1
+          have := ((hdepth i f hf c).1 hcf).2
+          omega
+        · exact Nat.le_of_eq (hmidd c (pm.subset (List.mem_append_right _ h1))).symm
+    · have heq := s2 (Nat.le_antisymm s1 hge)
+      rw [hs] at heq
+      simp only [Option.some.injEq, Prod.mk.injEq] at heq
+      obtain ⟨rfl, rfl⟩ := heq
+      constructor
+      · intro c hcm
+        obtain ⟨i, f, hi, hf, hcf⟩ := mem_take_flatten F j c hcm
+        have := ((hdepth i f hf c).1 hcf).2
+        omega
+      · intro c hcm
+        obtain ⟨i, f, hi, hf, hcf⟩ := mem_drop_flatten F j c hcm
+        have := ((hdepth i f hf c).1 hcf).2
+        omega
+  refine ⟨key.1, key.2, fun c hcc hd => ?_, fun c hcc hd => ?_⟩
+  · rcases List.mem_append.1 (hperm.mem_iff.2 hcc) with h1 | h1
+    · exact h1
+    · have := key.2 c h1; omega
+  · rcases List.mem_append.1 (hperm.mem_iff.2 hcc) with h1 | h1
+    · have := key.1 c h1; omega
+    · exact h1
+
+/-- The indicator of the composed model IS C15's `leastContributor`, whatever weights and raw values
+produced the weighted values the front carries (`indicator.py` reads `fitness.wvalues` only). -/
+theorem mo_indicator_is_library (m : Nat) (ref : List ℚ) (front : List Cand)
+    (hlen : ∀ c ∈ front, c.w.length = m) (weights : List ℚ) (vals : List (List ℚ))
+    (h : vals.map (wvalues weights) = front.map (fun c => c.w)) :
+    leastContributor weights vals (some ref) = indicator m ref front :=
+  indicator_any_weights m ref front hlen weights vals h
+
+/-- The reference point of `_select` (cma.py:463-464): in every objective the worst negated weighted
+value over ALL candidates (not only the mid front) plus one. -/
+theorem mo_ref_point (m : Nat) (cands : List Cand) (hne : cands ≠ []) (hlen : ∀ c ∈ cands, c.w.length = m) :
+    (refPoint cands).length = m ∧
+    ∀ j < m, (∀ q ∈ negW cands, q.getD j 0 + 1 ≤ (refPoint cands).getD j 0) ∧
+      (∃ q ∈ negW cands, (refPoint cands).getD j 0 = q.getD j 0 + 1) :=
+  refPoint_spec m cands hne hlen
+
+/-- The hypotheses of the composition theorems are satisfiable: five bi-objective candidates, two
+places. -/
+example : (2 : Nat) ≤ 2 ∧
+    (∀ c ∈ mkCands [[-1, -3], [-2, -2], [-3, -1], [-2, -5/2], [0, 0]], c.w.length = 2) ∧
+    2 < (mkCands [[-1, -3], [-2, -2], [-3, -1], [-2, -5/2], [0, 0]]).length := by
+  refine ⟨Nat.le_refl 2, ?_, by decide⟩
+  intro c hc
+  simp [mkCands, List.zipIdx] at hc
+  rcases hc with rfl | rfl | rfl | rfl | rfl <;> rfl
+
+end Compose
+
+/-! ## 8. Elitism composed with C01's order on multi-valued fitnesses -/
+section Lex
+variable {α β : Type} [LinearOrder α] [RealLike β]
+
+/-- The comparison operators of `deap.base.Fitness` as modelled for C01 (`Core/Fitness.lean`):
+`__le__` / `__lt__` = Python tuple comparison of the weighted values, any number of objectives. -/
+def fitOrd (α : Type) [LinearOrder α] : FitOrd (Fitness.Fit α) := ⟨Fitness.le, Fitness.lt⟩
+
+/-- C01 ⇒ the hypothesis of the elitism theorems: the library's fitness comparison is a total
+preorder whose `<` is the strict part of `<=` — for tuples of ANY length (single-objective,
+multi-objective, even tuples of different lengths), by `C01.lt_trichotomy`, `C01.lt_trans`,
+`C01.le_iff_lt_or_eq`, `C01.gt_iff_swap`. -/
+theorem fitOrd_total : TotalPre (fitOrd α) := by
+  have hle : ∀ a b : Fitness.Fit α, Fitness.le a b = true ↔ a.wvalues ≤ b.wvalues := by
+    intro a b
+    rw [C01.le_iff_lt_or_eq, C01.lt_iff_lex, C01.eq_iff]
+    exact (_root_.le_iff_lt_or_eq).symm
+  refine ⟨fun a b => ?_, fun a b c h1 h2 => ?_, fun a b => ?_⟩
+  · show Fitness.le a b = true ∨ Fitness.le b a = true
+    rw [hle, hle]; exact le_total _ _
+  · show Fitness.le a c = true
+    have h1' : Fitness.le a b = true := h1
+    have h2' : Fitness.le b c = true := h2
+    rw [hle] at h1' h2' ⊢; exact le_trans h1' h2'
+  · show Fitness.lt a b = !Fitness.le b a
+    exact (C01.gt_iff_swap b a).symm
+
+/-- In terms of the weighted values: `<=` of the fitness class is the lexicographic order. -/
+theorem fitOrd_le_iff (a b : Fitness.Fit α) : (fitOrd α).le a b = true ↔ a.wvalues ≤ b.wvalues := by
+  show Fitness.le a b = true ↔ _
+  rw [C01.le_iff_lt_or_eq, C01.lt_iff_lex, C01.eq_iff]
+  exact (_root_.le_iff_lt_or_eq).symm
+
+/-- **(1+λ), whole histories, multi-valued fitness.**  `elitist_never_worse` with the library's
+own fitness comparison (C01's model) in place of an abstract total preorder — no hypothesis on the
+order is left: over any sequence of non-empty evaluated populations whose individuals carry
+fitnesses of any number of objectives, the run succeeds; the parent's weighted-value tuple never
+decreases in the lexicographic order; it is at least every tuple evaluated so far; and the parent
+(id, genome, fitness together) is the initial parent or one of the evaluated individuals. -/
+theorem elitist_never_worse_lex (chol : List (List β) → List (List β))
+    (s : OnePlus.State (Fitness.Fit α) β) (rounds : List (List (Ind (Fitness.Fit α) β)))
+    (hne : ∀ p ∈ rounds, p ≠ []) :
+    ∃ s', OnePlus.run (fitOrd α) chol s rounds = some s' ∧
+      s.parent.fit.wvalues ≤ s'.parent.fit.wvalues ∧
+      (∀ p ∈ rounds, ∀ i ∈ p, i.fit.wvalues ≤ s'.parent.fit.wvalues) ∧
+      (s'.parent = s.parent ∨ ∃ p ∈ rounds, s'.parent ∈ p) := by
+  obtain ⟨s', h1, h2, h3, h4⟩ := elitist_never_worse (fitOrd_total (α := α)) chol s rounds hne
+  exact ⟨s', h1, (fitOrd_le_iff _ _).1 h2, fun p hp i hi => (fitOrd_le_iff _ _).1 (h3 p hp i hi), h4⟩
+
+/-- **Active (1+λ), whole histories, multi-valued fitness**: the same for
+`StrategyActiveOnePlusLambda` (only valid individuals compete; among valid fitnesses
+`ConstrainedFitness` compares like `Fitness`, `C01.constrained_neither`). -/
+theorem active_elitist_never_worse_lex (inv : Nat → List (List β) → Option (List (List β)))
+    (s : Active.State (Fitness.Fit α) β) (rounds : List (List (Active.AInd (Fitness.Fit α) β))) :
+    (∀ pf, s.parentFit = some pf →
+      ∃ f, (Active.run (fitOrd α) inv s rounds).parentFit = some f ∧ pf.wvalues ≤ f.wvalues) ∧
+    (∀ p ∈ rounds, ∀ i ∈ p, ∀ fi, i.fit = some fi →
+      ∃ f, (Active.run (fitOrd α) inv s rounds).parentFit = some f ∧ fi.wvalues ≤ f.wvalues) ∧
+    (triple (Active.run (fitOrd α) inv s rounds) = triple s ∨
+      ∃ p ∈ rounds, ∃ i ∈ p, i.fit.isSome = true ∧
+        triple (Active.run (fitOrd α) inv s rounds) = (i.id, i.x, i.fit)) := by
+  obtain ⟨h1, h2, h3⟩ := active_elitist_never_worse (fitOrd_total (α := α)) inv s rounds
+  refine ⟨fun pf hpf => ?_, fun p hp i hi fi hfi => ?_, h3⟩
+  · obtain ⟨f, e1, e2⟩ := h1 pf hpf; exact ⟨f, e1, (fitOrd_le_iff _ _).1 e2⟩
+  · obtain ⟨f, e1, e2⟩ := h2 p hp i hi fi hfi; exact ⟨f, e1, (fitOrd_le_iff _ _).1 e2⟩
+
+/-- The comparison operators of `deap.base.ConstrainedFitness` as modelled for C01 (what the
+constrained tests give the individuals of the active strategy). -/
+def cfitOrd (α : Type) [LinearOrder α] : FitOrd (Fitness.CFit α) := ⟨Fitness.cle, Fitness.clt⟩
+
+/-- C01 ⇒ `ConstrainedFitness` comparison is a total preorder too: violating fitnesses are equal to
+each other and below every non-violating one (`C01.constrained_table`, `constrained_both`), the
+non-violating ones compare lexicographically (`C01.constrained_neither`). -/
+theorem cfitOrd_total : TotalPre (cfitOrd α) := by
+  have hp := fitOrd_total (α := α)
+  refine ⟨fun a b => ?_, fun a b c h1 h2 => ?_, fun a b => ?_⟩
+  · show Fitness.cle a b = true ∨ Fitness.cle b a = true
+    cases ha : Fitness.violates a <;> cases hb : Fitness.violates b
+    · rw [(C01.constrained_neither a b ha hb).2.1, (C01.constrained_neither b a hb ha).2.1]
+      exact hp.total a.base b.base
+    · right; exact (C01.constrained_table b a hb ha).2.2.2.2.2.1
+    · left; exact (C01.constrained_table a b ha hb).2.2.2.2.2.1
+    · left; exact (C01.constrained_both a b ha hb).2.2.2.2.1
+  · show Fitness.cle a c = true
+    have h1' : Fitness.cle a b = true := h1
+    have h2' : Fitness.cle b c = true := h2
+    cases ha : Fitness.violates a
+    · cases hb : Fitness.violates b
+      · cases hc : Fitness.violates c
+        · rw [(C01.constrained_neither a b ha hb).2.1] at h1'
+          rw [(C01.constrained_neither b c hb hc).2.1] at h2'
+          rw [(C01.constrained_neither a c ha hc).2.1]
+          exact hp.trans a.base b.base c.base h1' h2'
+        · rw [(C01.constrained_table c b hc hb).2.2.2.2.2.2.2.2.2.2.2.2] at h2'; cases h2'
+      · rw [(C01.constrained_table b a hb ha).2.2.2.2.2.2.2.2.2.2.2.2] at h1'; cases h1'
+    · cases hc : Fitness.violates c
+      · exact (C01.constrained_table a c ha hc).2.2.2.2.2.1
+      · exact (C01.constrained_both a c ha hc).2.2.2.2.1
+  · show Fitness.clt a b = !Fitness.cle b a
+    cases ha : Fitness.violates a <;> cases hb : Fitness.violates b
+    · rw [(C01.constrained_neither a b ha hb).1, (C01.constrained_neither b a hb ha).2.1]
+      exact hp.lt_iff a.base b.base
+    · rw [(C01.constrained_table b a hb ha).2.2.2.2.2.2.2.2.2.2.2.1,
+        (C01.constrained_table b a hb ha).2.2.2.2.2.1]; rfl
+    · rw [(C01.constrained_table a b ha hb).2.2.2.2.1,
+        (C01.constrained_table a b ha hb).2.2.2.2.2.2.2.2.2.2.2.2]; rfl
+    · rw [(C01.constrained_both a b ha hb).2.1, (C01.constrained_both b a hb ha).2.2.2.2.1]; rfl
+
+/-- Among non-violating constrained fitnesses `<=` is the lexicographic order of the weighted values. -/
+theorem cfitOrd_le_iff (a b : Fitness.CFit α) (ha : Fitness.violates a = false) (hb : Fitness.violates b = false) :
+    (cfitOrd α).le a b = true ↔ a.wvalues ≤ b.wvalues := by
+  show Fitness.cle a b = true ↔ _
+  rw [(C01.constrained_neither a b ha hb).2.1]
+  exact fitOrd_le_iff a.base b.base
+
+/-- **Active (1+λ), whole histories, `ConstrainedFitness`**: `active_elitist_never_worse` with the
+library's constrained fitness comparison (C01's model) — no hypothesis on the order. -/
+theorem active_elitist_never_worse_constrained (inv : Nat → List (List β) → Option (List (List β)))
+    (s : Active.State (Fitness.CFit α) β) (rounds : List (List (Active.AInd (Fitness.CFit α) β))) :
+    (∀ pf, s.parentFit = some pf →
+      ∃ f, (Active.run (cfitOrd α) inv s rounds).parentFit = some f ∧ (cfitOrd α).le pf f = true) ∧
+    (∀ p ∈ rounds, ∀ i ∈ p, ∀ fi, i.fit = some fi →
+      ∃ f, (Active.run (cfitOrd α) inv s rounds).parentFit = some f ∧ (cfitOrd α).le fi f = true) ∧
+    (triple (Active.run (cfitOrd α) inv s rounds) = triple s ∨
+      ∃ p ∈ rounds, ∃ i ∈ p, i.fit.isSome = true ∧
+        triple (Active.run (cfitOrd α) inv s rounds) = (i.id, i.x, i.fit)) :=
+  active_elitist_never_worse (cfitOrd_total (α := α)) inv s rounds
+
+/-- Non-vacuity: a two-round history of bi-objective fitnesses (ties in the first objective). -/
+example : ∀ p ∈ ([[⟨1, [0.0], ⟨[-1, -2]⟩, [], []⟩, ⟨2, [1.0], ⟨[-1, -1]⟩, [], []⟩], [⟨3, [2.0], ⟨[0, -5]⟩, [], []⟩]] :
+    List (List (Ind (Fitness.Fit Int) Float))), p ≠ [] := by
+  intro p hp
+  simp only [List.mem_cons, List.not_mem_nil, or_false] at hp
+  rcases hp with rfl | rfl <;> simp
+
+end Lex
 
 end C14
